@@ -257,4 +257,19 @@ def check_track_sections(ctx: Ctx, r: Rule, which: str, strict: Any = True) -> d
                                             f"(component {idx.get(pdq)} of the kind-list helper); it receives "
                                             f"{show(bk.get(build_params[1]))[:200]}")
             out["fields"][field] = (et[1], bk.get(build_params[2]), val)
+    # every event-list field of the track is produced by a builder (none left to a stale or missing value)
+    for fl in c.dc_fields():
+        ft = ctx.ev.types.field_type(c, fl.name)
+        is_events = ft is not None and ((ft[0] == "seq" and ft[1][0] == "inst" and ft[1][1] in ctx.prog.classes
+                                         and any(getattr(k, "qual", k) == "chartparse.event.Event" for k in ctx.prog.classes[ft[1][1]].mro))
+                                        or ft == ("inst", "chartparse.sync.BPMEvents"))
+        if not is_events:
+            continue
+        v_ = kw.get(fl.name)
+        if fl.name in out["fields"]:
+            continue
+        if v_ is not None and v_[0] == "call" and v_[1][0] in ("func", "boundcls") and v_[1][1] != BUILD:
+            continue  # a dedicated builder (note events), checked by the note rules
+        fail(r, ctx, f, ex[0].node, f"field {fl.name} of {c.name} is not the result of a per-kind builder applied to this section's data; found "
+                                    f"{show(v_)[:120] if v_ else None}")
     return out
